@@ -35,7 +35,10 @@ def _wfuncs(rng):
 
     def lin(d):
         return np.maximum(0.0, 1.0 - d / 3.0e5)
-    return {"step": step, "soft": soft, "idw": idw, "lin": lin}
+    def sharp(d):
+        # falls off fast against the radius: far neighbours get a tiny but positive relative weight
+        return np.exp(-(d / 4000.0) ** 2)
+    return {"step": step, "soft": soft, "idw": idw, "lin": lin, "sharp": sharp}
 
 
 def _close(a, b):
@@ -57,14 +60,17 @@ def check(ctx, src, tgt, radius, desc):
     ids = np.arange(n_src, dtype=float)
     variants = []
     v1 = (ids * 7 % 23) - 5.0
-    variants.append(("1ch", v1.reshape(src.shape), [r.choice(list(wf))], None))
+    plain = [n_ for n_ in wf if n_ != "sharp"]
+    variants.append(("1ch", v1.reshape(src.shape), [r.choice(plain)], None))
     v3 = np.stack([v1, ids * 0 + 4.25, (ids % 5) * 1.5], axis=-1)
-    variants.append(("3ch", v3.reshape(tuple(src.shape) + (3,)), [r.choice(list(wf)) for _ in range(3)], None))
+    variants.append(("3ch", v3.reshape(tuple(src.shape) + (3,)), [r.choice(plain) for _ in range(3)], None))
     m = np.array([r.random() < 0.25 for _ in range(n_src)])
-    variants.append(("masked1ch", np.ma.array(v1.reshape(src.shape), mask=m.reshape(src.shape)), [r.choice(["step", "soft", "lin"])], m))
+    variants.append(("masked1ch", np.ma.array(v1.reshape(src.shape), mask=m.reshape(src.shape)), [r.choice(["step", "soft", "lin", "sharp", "sharp"])], m))
     m2 = np.stack([m, ~m], axis=-1)
     variants.append(("masked2ch", np.ma.array(v3[:, :2].reshape(tuple(src.shape) + (2,)), mask=m2.reshape(tuple(src.shape) + (2,))),
-                     [r.choice(["step", "soft"]), "lin"], m2))
+                     [r.choice(["step", "soft", "sharp"]), "lin"], m2))
+    # data with a large offset against its spread (e.g. epoch seconds): the estimator must not cancel
+    variants.append(("1ch_offset", (v1 + 1.7e9).reshape(src.shape), [r.choice(["step", "soft", "lin"])], None))
     with warnings.catch_warnings():
         warnings.simplefilter("ignore")
         vii, voi, ia, da = kd_tree.get_neighbour_info(src, tgt, radius, neighbours=k, epsilon=0, reduce_data=False, segments=1)
@@ -121,14 +127,22 @@ def check(ctx, src, tgt, radius, desc):
                             if int(C[j, c]) != int(rep[1]):
                                 ctx.disagree("count", {**inp, "target": int(j), "channel": c}, int(C[j, c]), rep[1])
                             mvar = None if rep[2] == "nan" else float(Fraction(rep[2]))
+                            wl = w[live & (w > 0)] if np.any(live) else np.array([])
                             sv_ = S[j, c]
                             if RM[j, c]:
                                 pass   # a masked result masks its standard deviation too
                             elif mvar is None:
                                 if not math.isnan(sv_):
                                     ctx.disagree("stddev", {**inp, "target": int(j), "channel": c}, float(sv_), "nan")
-                            elif mvar >= 0 and not (math.isnan(sv_) and mvar < 1e-18) and not abs(sv_ ** 2 - mvar) <= 1e-7 * max(1.0, mvar):
+                            elif wl.size and wl.min() < 1e-6 * wl.max():
+                                ctx.count("stddev.skipped.ill_conditioned_weights")   # V1 - V2/V1 cancels when one weight dominates: float conditioning, not compared
+                            elif mvar >= 0 and not (math.isnan(sv_) and mvar < 1e-18) and not abs(sv_ ** 2 - mvar) <= 1e-7 * max(1.0, mvar) + 1e-14 * float(np.abs(xs).max()) * math.sqrt(mvar + 1.0):
                                 ctx.disagree("stddev", {**inp, "target": int(j), "channel": c}, float(sv_ ** 2), mvar)
+                                # the property itself, with a generous bound: the reported value is not the unbiased weighted estimator
+                                if math.isnan(sv_) or abs(sv_ ** 2 - mvar) > 1e-3 * max(1.0, mvar) + 1e-12 * float(np.abs(xs).max()) * math.sqrt(mvar + 1.0):
+                                    ctx.fail("kd_tree.resample_custom", f"standard deviation^2 {float(sv_ ** 2)!r} at a location with {rep[1]} neighbours, the unbiased weighted "
+                                             f"estimator of the same neighbours gives {mvar!r}", {**inp, "target": int(j), "channel": c},
+                                             {"weights": [float(v) for v in w[live]], "values": [float(v) for v in xs[live]]}, tags={"cause": "stddev"}, size=n_src + n_tgt)
                     # ---- brute-force oracle (model-free): k nearest valid sources within the radius
                     within = [s for s in order[j][:k + 1] if d[j, s] <= radius]
                     tie = len(within) > k and abs(d[j, within[k]] - d[j, within[k - 1]]) <= 1e-9 * max(1.0, d[j, within[k - 1]])
